@@ -459,7 +459,9 @@ static void mode_helpers(void) {
 
 static void body(void) {
   MAIN_T = pthread_self();
-  switch (vx_choose("mode", 4)) {
+  int mode = vx_choose("mode", 4);
+  { const char *only = getenv("C05_MODE"); if (only && atoi(only) != mode) vx_require(0); }   /* measurement aid only */
+  switch (mode) {
     case 0: mode_helpers(); break;
     case 1: mode_loo(); break;
     case 2: mode_kfold(); break;
